@@ -448,20 +448,19 @@ func TestC11Alloc(t *testing.T) {
 		}
 		res := make([]blk, len(c.Sizes))
 		var wg sync.WaitGroup
-		ch := make(chan int, len(c.Sizes))
-		for i := range c.Sizes {
-			ch <- i
-		}
-		close(ch)
+		start := make(chan struct{})
 		for g := 0; g < c.Procs; g++ {
 			wg.Add(1)
-			go func() {
+			go func(g int) {
 				defer wg.Done()
-				for i := range ch {
+				<-start
+				// statically partitioned, tight loop: maximises the chance of two allocations overlapping in time
+				for i := g; i < len(c.Sizes); i += c.Procs {
 					res[i] = blk{packets.AllocPacketID(uint8(c.Sizes[i])), c.Sizes[i]}
 				}
-			}()
+			}(g)
 		}
+		close(start)
 		wg.Wait()
 		owner := map[uint16]int{}
 		var ds []Diff
